@@ -65,10 +65,10 @@ CLAIMED['C08'] = dict(
 )
 CLAIMED['C19'] = dict(
     category='proof',
-    text='Contract on the real AttributeCollection.unpack with the class-level cache as state: the collection returned is a decode of THESE bytes under THIS session context (asn4, aigp) whether fresh or cached, and the cache only ever holds a clean decode of the bytes and context recorded next to it (invariant required and re-established on every path, including exceptional ones); Aggregator.from_packet keeps the width it was decoded with. Discharged by z3. Bounded complement: every message of a mixed sequence over two differently negotiated sessions, with repeated / cross-session / malformed-repeat attribute blocks, decodes (JSON event, markers, Adj-RIB-In) as it does alone in a fresh interpreter.',
-    note='The write-frame scan over all decode-reachable functions and the capability klass.ID registry invariant of DESIGN §6 are not built yet; Capability.klass mutating kls.ID for doubly registered codes (route-refresh Cisco variant) is a known open item (DESIGN §8 row 15b).',
-    ref='DESIGN.md §6 C19',
-    technique=PYVC + ' (class-state invariant with ghost decode provenance); bounded sequence-vs-fresh-process differential',
+    text='Deductive (z3): contract on the real AttributeCollection.unpack with the class-level cache as state: the collection returned is a decode of THESE bytes under THIS session context (asn4, aigp) whether fresh or cached, and the cache only ever holds a clean decode of the bytes and context recorded next to it (invariant required and re-established on every path, including exceptional ones); Aggregator.from_packet keeps the width it was decoded with. STATIC frame obligation (shared-state-table): every statement inside a function of bgp/message/** and protocol/** which writes class-level or module-level state (~58 sites, AST scan of the current tree on every run: cls.X = / ClassName.X[...] = / mutating calls on those / an UPPERCASE attribute written on a non-self object / global) must be one of the justified sites (registration at import time; caches keyed by their whole input; the cache under contract above); a new site is a violation. Bounded: (sequence-vs-fresh) every message of a mixed sequence over four differently negotiated sessions (4-byte eBGP, 2-byte iBGP, iBGP with and without AIGP), with repeated / back-to-back / cross-session / malformed-repeat attribute blocks, shared AIGP values, with and without withdrawn routes, decode caches switched on as application/server.py does, decodes (JSON event, markers, Adj-RIB-In) as it does alone in a fresh interpreter; (open-sequences) every ordered triple of peer OPENs using standard and Cisco capability codes leaves each OPEN event and our own next OPEN unchanged.',
+    note='The static table cannot see an attribute written on an object fetched from a cache (what NetMask did; found by C18 and fixed); Capability.klass and Attribute.klass do rewrite a class constant while decoding: justified by open-sequences (no observable effect) and by registration under a single id respectively, not by proof. Functions outside bgp/message and protocol (reactor handlers, RIB) are not scanned.',
+    ref='DESIGN.md §6 C19, §11.18, §11.22',
+    technique=PYVC + ' (class-state invariant with ghost decode provenance); static write-frame table over all class-level / module-level writes; bounded sequence-vs-fresh-process differential',
 )
 
 CLAIMED['C07'] = dict(
